@@ -244,10 +244,14 @@ fn in_child(threads: usize, secs: u64, line: &str) -> Result<String, String> {
 }
 
 /// `<seed>` or `<seed>.<pool>`
-fn parse_seed_pool(s: &str) -> Option<(u64, Pool)> {
-    match s.split_once('.') {
-        None => Some((s.parse().ok()?, Pool::Default)),
-        Some((a, b)) => Some((a.parse().ok()?, parse_pool(b)?)),
+/// `seed[.pool[.watchdog-seconds]]` (the watchdog defaults to 60 s; a shorter one keeps a witness of a hang cheap to replay)
+fn parse_seed_pool(s: &str) -> Option<(u64, Pool, u64)> {
+    let f: Vec<&str> = s.split('.').collect();
+    match f.as_slice() {
+        [a] => Some((a.parse().ok()?, Pool::Default, 60)),
+        [a, b] => Some((a.parse().ok()?, parse_pool(b)?, 60)),
+        [a, b, w] => Some((a.parse().ok()?, parse_pool(b)?, w.parse().ok().filter(|w| (1..=600).contains(w))?)),
+        _ => None,
     }
 }
 
@@ -304,7 +308,7 @@ fn store_forest(h: &DH, forest: &[(u64, Vec<u64>)]) -> RusticResult<()> {
 }
 
 fn exec_stream(seed: &str, forest: &str, roots: &str) -> String {
-    let (Some((seed, pool)), Some(forest_v)) = (parse_seed_pool(seed), parse_forest(forest)) else {
+    let (Some((seed, pool, wd_secs)), Some(forest_v)) = (parse_seed_pool(seed), parse_forest(forest)) else {
         return "bad-op".into();
     };
     let threads = match pool {
@@ -336,7 +340,7 @@ fn exec_stream(seed: &str, forest: &str, roots: &str) -> String {
     let mut hd = h.clone();
     hd.be.max_us = if seed % 3 == 0 { 0 } else { 3000 };
     let ids: Vec<TreeId> = roots.iter().map(|l| TreeId::from(fake_id(*l, TAG_TREE))).collect();
-    let res = watchdog(60, move || -> Result<Vec<String>, String> {
+    let res = watchdog(wd_secs, move || -> Result<Vec<String>, String> {
       in_pool(threads, move || {
         let repo = hd.open().and_then(|r| r.to_indexed_ids()).map_err(|e| crate::util::errkind(&e))?;
         let items = rustic_core::verif::tree::stream_once(&repo, ids).map_err(|e| crate::util::errkind(&e))?;
